@@ -48,11 +48,11 @@ pub trait Prob<T: HScalar>: Sized {
     fn p_model(&self) -> &Wrap<T>;
     fn p_weights_unit(&self) -> bool;
     fn p_into_seq(self) -> Self::Seq;
-    fn p_fit(self, solver: LevenbergMarquardt<T>) -> FitOut<T, Self::Seq>;
+    fn p_fit(self, solver: Option<LevenbergMarquardt<T>>) -> FitOut<T, Self::Seq>;
     /// None when the flavour has no fit_with_statistics
     fn p_fit_stats(
         self,
-        solver: LevenbergMarquardt<T>,
+        solver: Option<LevenbergMarquardt<T>>,
     ) -> Option<(FitOut<T, Self::Seq>, Option<StatsOut<T>>)>;
 }
 
@@ -142,8 +142,12 @@ macro_rules! impl_prob_srhs {
                 let v = self.weighted_data().into_owned();
                 DMatrix::from_column_slice(v.nrows(), 1, v.as_slice())
             }
-            fn p_fit(self, solver: LevenbergMarquardt<T>) -> FitOut<T, Self::Seq> {
-                let s = LevMarSolver::<Wrap<T>, false>::with_solver(solver);
+            fn p_fit(self, solver: Option<LevenbergMarquardt<T>>) -> FitOut<T, Self::Seq> {
+                // an empty configuration means the library's own default solver (LevMarSolver::default())
+                let s = match solver {
+                    Some(so) => LevMarSolver::<Wrap<T>, false>::with_solver(so),
+                    None => LevMarSolver::<Wrap<T>, false>::default(),
+                };
                 let (ok, r) = match s.fit(self) {
                     Ok(r) => (true, r),
                     Err(r) => (false, r),
@@ -160,9 +164,13 @@ macro_rules! impl_prob_srhs {
             }
             fn p_fit_stats(
                 self,
-                solver: LevenbergMarquardt<T>,
+                solver: Option<LevenbergMarquardt<T>>,
             ) -> Option<(FitOut<T, Self::Seq>, Option<StatsOut<T>>)> {
-                let s = LevMarSolver::<Wrap<T>, false>::with_solver(solver);
+                // an empty configuration means the library's own default solver (LevMarSolver::default())
+                let s = match solver {
+                    Some(so) => LevMarSolver::<Wrap<T>, false>::with_solver(so),
+                    None => LevMarSolver::<Wrap<T>, false>::default(),
+                };
                 let (ok, r, st) = match s.fit_with_statistics(self) {
                     Ok((r, st)) => (true, r, Some(st)),
                     Err(r) => (false, r, None),
@@ -194,8 +202,12 @@ macro_rules! impl_prob_mrhs {
             fn p_wdata(&self) -> DMatrix<T> {
                 self.weighted_data().into_owned()
             }
-            fn p_fit(self, solver: LevenbergMarquardt<T>) -> FitOut<T, Self::Seq> {
-                let s = LevMarSolver::<Wrap<T>, true>::with_solver(solver);
+            fn p_fit(self, solver: Option<LevenbergMarquardt<T>>) -> FitOut<T, Self::Seq> {
+                // an empty configuration means the library's own default solver (LevMarSolver::default())
+                let s = match solver {
+                    Some(so) => LevMarSolver::<Wrap<T>, true>::with_solver(so),
+                    None => LevMarSolver::<Wrap<T>, true>::default(),
+                };
                 let (ok, r) = match s.fit(self) {
                     Ok(r) => (true, r),
                     Err(r) => (false, r),
@@ -208,7 +220,7 @@ macro_rules! impl_prob_mrhs {
             }
             fn p_fit_stats(
                 self,
-                _solver: LevenbergMarquardt<T>,
+                _solver: Option<LevenbergMarquardt<T>>,
             ) -> Option<(FitOut<T, Self::Seq>, Option<StatsOut<T>>)> {
                 None
             }
